@@ -51,7 +51,8 @@ ArcMustReject(f) ==
                      LET rb == ai + 16 * (i - 1) IN
                        /\ rb + 16 <= ds
                        /\ LET sz == Rd32(c.data, rb + 8, "le")  off == Rd32(c.data, rb + 12, "le")
-                          IN sz = Huge \/ off = Huge \/ (sz > 0 /\ (off > ds \/ sz > ds \/ off + pad + sz > ds))
+                          \* (an empty file declares no bytes, wherever its offset points)
+                          IN sz = Huge \/ (sz > 0 /\ (off = Huge \/ off > ds \/ sz > ds \/ off + pad + sz > ds))
 
 MustRejectEntry(entry, f) ==
   CASE entry = "bin_le"  -> BinMustReject(f, "le")
